@@ -131,7 +131,7 @@ def runC06 (c : Case) : Verdict :=
       (specClosestN (effK ci) ci.maxd)
       (fun q i => specSnpStrings 0 q ((ci.ts.getD i default).2))
   let byText (rows : List ERow) : List ERow :=
-    if c.prop == "C07" then sortStable (fun a b => decide (joinWith "," a.pre < joinWith "," b.pre)) rows else rows
+    if c.prop == "C07" then sortStable (fun a b => decide (a.render < b.render)) rows else rows
   { agree := rowsMatch mh (byText mrows) go
     spec := if rowsMatch sh (byText srows) go then "ok" else "fail:output-differs-from-spec"
     model := renderRows mh (byText mrows) }
